@@ -36,6 +36,30 @@ def main():
     bad = 0
     try:
         for m in sel:
+            if m["kind"] == "RENAME":
+                # rename an identifier throughout one package directory (behaviour-preserving)
+                d = os.path.join(repo, m["file"])
+                saved = {}
+                for fn_ in os.listdir(d):
+                    if fn_.endswith(".go"):
+                        fp = os.path.join(d, fn_); t = open(fp).read()
+                        t2 = re.sub(r"\b" + re.escape(m["old"]) + r"\b", m["new"], t)
+                        if t2 != t:
+                            saved[fp] = t; open(fp, "w").write(t2)
+                try:
+                    b = subprocess.run(["go", "build", "./" + m["file"]], cwd=repo, env=env, capture_output=True, text=True)
+                    if b.returncode != 0 or not saved:
+                        print(f"{m['id']:28} NOBUILD {b.stderr.strip().splitlines()[:2]}"); bad += 1; continue
+                    r = subprocess.run([checker, "-property", m["prop"], "-tier", "quick", "-repo", repo, "-verif", verif, "-v"], capture_output=True, text=True, env=env)
+                    lines = [l for l in r.stdout.splitlines() if "[violation]" in l or "[undecided]" in l or "checker failure" in l]
+                    if r.returncode == 0:
+                        print(f"{m['id']:28} silent  (renamed {m['old']} -> {m['new']})")
+                    else:
+                        print(f"{m['id']:28} FALSE-ALARM {lines[:2]}"); bad += 1
+                finally:
+                    for fp, t in saved.items():
+                        open(fp, "w").write(t)
+                continue
             path = os.path.join(repo, m["file"])
             src = open(path).read()
             if src.count(m["old"]) != 1:
